@@ -152,7 +152,7 @@ fn c17_6{name}_a() {{
 }}
 
 //@ obligation: C17.6{name}.c
-//@ property: C17 C18
+//@ property: C17
 //@ kind: K3
 //@ complete: yes
 //@ functions: {tname}::subscribe
@@ -163,7 +163,7 @@ fn c17_6{name}_c() {{
 }}
 
 //@ obligation: C17.6{name}.d
-//@ property: C17 C18
+//@ property: C17
 //@ kind: K3
 //@ complete: yes
 //@ functions: {tname}::subscribe
